@@ -491,6 +491,9 @@ func vaultFactories() []vaultFactory {
 // cosmosFactory is set by the verif-tagged file when the overlay-added constructor is available.
 var cosmosFactory *vaultFactory
 
+// cosmosPagedFactories: the CosmosDB fake with paged query answers (C15 only).
+var cosmosPagedFactories []vaultFactory
+
 // normalizeForVault removes differences that are decided by the CosmosDB service and not by the package: the order of
 // the actions of a group comes from the query's "ORDER BY c.pos", which the package's fake client does not evaluate.
 // For cosmosdb the actions of every checks group and sequence of the read plan are put into the order of the written
@@ -545,7 +548,7 @@ type storeCase struct {
 func (c storeCase) String() string { return fmt.Sprintf("%s %s ops=%v", c.Vault, c.Shape, c.Ops) }
 
 func factoryByName(name string) *vaultFactory {
-	for _, f := range vaultFactories() {
+	for _, f := range append(vaultFactories(), cosmosPagedFactories...) {
 		if f.name == name {
 			return &f
 		}
